@@ -137,15 +137,18 @@ CHECKS["C18"] = dict(
 
 CHECKS["C10"] = dict(
     level="exploration",
-    rule=("(exh) per format (all 47 of pixman.h, chosen by rapidcheck together with accessor flags and destination offset): every "
-          "pixel value for <= 16 bpp (2^bpp values), per-channel ramps/walking bits + 20000 random values for 24/32 bpp: OP_SRC into "
-          "a8r8g8b8 must equal the reference decode (bit replication, absent alpha = 1, absent colour = 0, palette lookup for "
-          "indexed), back into the format must equal truncation and be the identity on the defined bits; wide formats (10 bpc, "
-          "sRGB) via rgba_float within 2^-20 (sRGB 2e-5) and identity on the way back. (codec) random images of every format "
-          "(width 1-110, sub-rectangle at any bit offset, padded/negative strides, fenced buffers): scanline vs single-pixel "
-          "reader agreement (identity vs +0.25px NEAREST), store locality on every bit outside the addressed pixels incl. sub-byte "
-          "neighbours and row padding, accessor image == direct image on defined bits with every callback address inside the "
-          "storage. Non-trivial = unaligned start/end, indexed/YUV source, or accessor callbacks observed."),
+    rule=('(exh) per format (all 47 of pixman.h, chosen by rapidcheck together with accessor flags and destination offset): every'
+          ' pixel value for <= 16 bpp (2^bpp values), per-channel ramps/walking bits + 20000 random values for 24/32 bpp: OP_SRC '
+          'into a8r8g8b8 must equal the reference decode (bit replication, absent alpha = 1, absent colour = 0, palette lookup '
+          'for indexed), back into the format must equal truncation and be the identity on the defined bits; wide formats (10 '
+          'bpc, sRGB) via rgba_float within 2^-20 (sRGB 2e-5) and identity on the way back. (codec) random images of every format'
+          ' (width 1-110, sub-rectangle at any bit offset, padded/negative strides, fenced buffers): scanline vs single-pixel '
+          'reader agreement (identity vs +0.25px NEAREST), store locality on every bit outside the addressed pixels incl. sub-'
+          'byte neighbours and row padding, accessor image == direct image on defined bits with every callback address inside the'
+          ' storage.; callbacks are pass-through, read-only on the source (no write callback), or translating (the storage holds '
+          'every byte XORed with a key only the callbacks know, so an access that bypasses them sees garbage; not for YUV '
+          'sources, whose fetchers address memory directly by design); accessors are not installed on > 32 bpp images (documented'
+          ' restriction). Non-trivial = unaligned start/end, indexed/YUV source, or accessor callbacks observed.'),
     jobs=[
         dict(harness="formats", prop="exh", cases=T(150, 1500), procs=T(4, 8)),
         dict(harness="formats", prop="codec", cases=T(12000, 250000), procs=T(6, 12)),
@@ -160,16 +163,18 @@ CHECKS["C10"] = dict(
 
 CHECKS["C01"] = dict(
     level="exploration",
-    rule=("rapidcheck one-row scenes (width 1-67, random x offsets, padded/negative strides, fenced buffers): all 63 operator codes "
-          "(40% mass on CLEAR..ADD), source bits or solid, mask none/unified/component-alpha (bits or solid), formats from every "
-          "packed RGB(A)/A format incl. 10 bpc, sRGB and float with 45% mass on the formats that have specialised paths, pixel "
-          "channels biased to {0,1,max/2,max/2+1,max-1,max}, premultiplied-valid and arbitrary values, repeating destinations "
-          "(opaque-destination column of the operator table). Oracle by class: exact (Porter-Duff + ADD, all formats <= 8 bpc): "
-          "bit-exact vs. integer model (round-to-nearest products, saturating sums, replication/truncation); float pipeline: within "
-          "1 + 1/64 destination step of the long-double Render/PDF equations (1e-4 for float destinations), premultiplied inputs "
-          "only; PDF blend modes in the 8-bit pipeline: within 2 steps of the equation on exact-rule-masked inputs. HSL with a "
-          "component-alpha mask is only checked to leave the destination (no equation in the statement). Non-trivial = operator "
-          "reads both operands or a mask is present, and some source alpha strictly between 0 and 1 or a mask."),
+    rule=('rapidcheck one-row scenes (width 1-67, random x offsets, padded/negative strides, fenced buffers): all 63 operator '
+          'codes (40% mass on CLEAR..ADD), source bits or solid, mask none/unified/component-alpha (bits or solid), formats from '
+          'every packed RGB(A)/A format incl. 10 bpc, sRGB and float with 45% mass on the formats that have specialised paths, '
+          'pixel channels biased to {0,1,max/2,max/2+1,max-1,max}, premultiplied-valid and arbitrary values, repeating '
+          'destinations (opaque-destination column of the operator table). Solid sources/masks carry genuinely 16-bit channels in'
+          ' 30% of cases (alpha 0xff00..0xfffe: opaque at 8 bits only); the 8-bit classes see the high bytes, the float class the'
+          ' 16-bit values. Oracle by class: exact (Porter-Duff + ADD, all formats <= 8 bpc): bit-exact vs. integer model (round-'
+          'to-nearest products, saturating sums, replication/truncation); float pipeline: within 1 + 1/64 destination step of the'
+          ' long-double Render/PDF equations (1e-4 for float destinations), premultiplied inputs only; PDF blend modes in the '
+          '8-bit pipeline: within 2 steps of the equation on exact-rule-masked inputs. HSL with a component-alpha mask is only '
+          'checked to leave the destination (no equation in the statement). Non-trivial = operator reads both operands or a mask '
+          'is present, and some source alpha strictly between 0 and 1 or a mask.'),
     jobs=[
         dict(harness="combine", prop="combine", cases=T(150000, 1500000), procs=T(6, 12)),
         dict(harness="combine", prop="combine", cases=T(15000, 200000), procs=T(1, 2), env={"PIXMAN_DISABLE": "sse2 ssse3 mmx"}, tag="combine_nosimd"),
@@ -205,16 +210,20 @@ CHECKS["C12"] = dict(
 
 CHECKS["C02"] = dict(
     level="exploration",
-    rule=("rapidcheck scenes (70% 'plain' profile shaped like the fast-path tables: common formats, OVER/SRC/ADD/IN..., a8/solid/"
-          "component-alpha masks, none/scaled/rotated/affine transforms with nearest/bilinear/separable filters, repeats, widths "
-          "1-300 with mass at SIMD boundaries, offsets, dest clips, fenced buffers; 30% full profile with every image property) and "
-          "pixman_fill/pixman_blt requests (bpp 1..128 incl. unsupported, x/width 0-130, padded strides, 0-12 byte start offsets), "
-          "each rendered by 8 (quick) / 32 (thorough) worker processes started with different PIXMAN_DISABLE values; destination "
-          "digests (undefined bits masked) and the alpha-map digests must equal those of the general-only chain; source/mask must "
-          "be unmodified; each worker's chain length must match the subset it was asked for; fill/blt must have the exact "
-          "rectangle effect or return FALSE having changed nothing. Non-trivial (scenes) = at least two workers resolved the request "
-          "to different (level, composite function, iterator set) triples, measured through the PIXMAN_VERIF trace hook; (fill/blt) "
-          "some chain returned TRUE on an unaligned start or width."),
+    rule=("rapidcheck scenes (70% 'plain' profile shaped like the fast-path tables: common formats, OVER/SRC/ADD/IN..., "
+          'a8/solid/component-alpha masks, none/scaled/rotated/affine transforms with nearest/bilinear/separable filters, '
+          'repeats, widths 1-300 with mass at SIMD boundaries, offsets, dest clips, fenced buffers; 30% full profile with every '
+          'image property; one plain request in six is shaped like the scaled nearest/bilinear fast-path families (SRC/OVER/ADD, '
+          '8888/565, positive scale, no mask / a8 mask with runs of 0x00 and 0xff / solid mask); 40% of scaled sources are '
+          "'cover' requests with scales of either sign and magnitude up to 4 (rows visited backwards, strides > 1); 8% are "
+          '20000-32000 px wide sources sampled with a large step from left of the image (sums beyond 2^31 units)) and '
+          'pixman_fill/pixman_blt requests (bpp 1..128 incl. unsupported, x/width 0-130, padded strides, 0-12 byte start '
+          'offsets), each rendered by 8 (quick) / 32 (thorough) worker processes started with different PIXMAN_DISABLE values; '
+          'destination digests (undefined bits masked) and the alpha-map digests must equal those of the general-only chain; '
+          "source/mask must be unmodified; each worker's chain length must match the subset it was asked for; fill/blt must have "
+          'the exact rectangle effect or return FALSE having changed nothing. Non-trivial (scenes) = at least two workers '
+          'resolved the request to different (level, composite function, iterator set) triples, measured through the PIXMAN_VERIF'
+          ' trace hook; (fill/blt) some chain returned TRUE on an unaligned start or width.'),
     jobs=[
         dict(harness="impls", prop="scene", cases=T(15000, 150000), procs=T(4, 6)),
         dict(harness="impls", prop="fillblt", cases=T(15000, 200000), procs=T(2, 2)),
@@ -331,15 +340,18 @@ CHECKS["C08"] = dict(
 
 CHECKS["C09"] = dict(
     level="exploration",
-    rule=("rapidcheck metamorphic pairs: one base scene (all 63 operators with 65% mass on CLEAR..SATURATE; source with any "
-          "transform kind, NEAREST/BILINEAR/CONVOLUTION/SEPARABLE filters with non-negative kernels, all repeats, request partly "
-          "outside a REPEAT_NONE source; widths with mass at SIMD boundaries) rendered under two presentations of the same fully "
-          "opaque content for one role: source in {a8r8g8b8 alpha 255, x8r8g8b8, x8b8g8r8, r5g6b5 (565-representable content), "
-          "solid, 1x1 repeating a8r8g8b8 / x8r8g8b8 (uniform content)}, mask in {none, a8=ff, x8r8g8b8, solid white, 1x1 a8=ff "
-          "repeating, a8r8g8b8=ffffffff component alpha}, destination in {a8r8g8b8 alpha 255, x8r8g8b8, x8r8g8b8 + repeat (the "
-          "only way a destination is flagged opaque), r5g6b5, r5g6b5 + repeat}; the other roles use a random fixed presentation. "
-          "Oracle: destinations identical on RGB (and alpha when both have it), bit for bit. Non-trivial = the pair differs in "
-          "opacity flagging and the operator's row of the reduction table has differing columns, or a mask is elided."),
+    rule=('rapidcheck metamorphic pairs: one base scene (all 63 operators with 65% mass on CLEAR..SATURATE; source with any '
+          'transform kind, NEAREST/BILINEAR/CONVOLUTION/SEPARABLE filters with non-negative kernels, all repeats, request partly '
+          'outside a REPEAT_NONE source; widths with mass at SIMD boundaries) rendered under two presentations of the same fully '
+          'opaque content for one role: source in {a8r8g8b8 alpha 255, x8r8g8b8, x8b8g8r8, r5g6b5 (565-representable content), '
+          'solid, 1x1 repeating a8r8g8b8 / x8r8g8b8 (uniform content)}, mask in {none, a8=ff, x8r8g8b8, solid white, 1x1 a8=ff '
+          'repeating, a8r8g8b8=ffffffff component alpha}, destination in {a8r8g8b8 alpha 255, x8r8g8b8, x8r8g8b8 + repeat (the '
+          'only way a destination is flagged opaque), r5g6b5, r5g6b5 + repeat}; the other roles use a random fixed presentation. '
+          "30% of masks are scaled nearest/bilinear 'cover' masks (every sample inside); 30% of convolution kernels sum to "
+          '0.4-0.99 instead of 1 when no solid presentation is involved (an alpha-less image read through such a kernel is not '
+          "opaque); a further job runs C19's fill_boxes oracle (OVER with 16-bit alphas 0xff00..0xfffe). Oracle: destinations "
+          'identical on RGB (and alpha when both have it), bit for bit. Non-trivial = the pair differs in opacity flagging and '
+          "the operator's row of the reduction table has differing columns, or a mask is elided."),
     jobs=[
         dict(harness="opaque", prop="opaque", cases=T(30000, 500000), procs=T(6, 10)),
         dict(harness="opaque", prop="opaque", cases=T(15000, 250000), procs=T(1, 2), env={"PIXMAN_DISABLE": "fast sse2 ssse3 mmx"}, tag="opaque_general"),
@@ -360,18 +372,21 @@ CHECKS["C09"] = dict(
 
 CHECKS["C13"] = dict(
     level="exploration",
-    rule=("(gradient) rapidcheck: 1-8 stops with non-decreasing positions in [0,1] incl. repeated positions and gaps at both ends; "
-          "linear (incl. horizontal/vertical axes), radial (concentric, nested, disjoint, r=0, equal radii) and conical gradients "
-          "(any angle, centre on a pixel centre); four repeats; identity / scale / affine / projective transforms; a8r8g8b8 and "
-          "rgba_float destinations; rows of 1-40 pixels. Oracle: t from the geometry in long double at the pixel centre and at "
-          "positions a few 1/65536 away (scaled by the projective conditioning), colour = repeat applied to t, two neighbouring "
-          "stops interpolated in non-premultiplied space, premultiplied; every channel must lie within 1 step of the range of the "
-          "reference over the admissible t interval (endpoints, interior samples, both sides of every stop image); no admissible "
-          "t => transparent. Skipped and counted: pixels where admissibility flips or t moves > 0.02 within the position "
-          "uncertainty, REPEAT_NONE between 0/1 and the first/last stop (only one neighbouring stop), degenerate linear axes, "
-          "requests the library drops (C04). (gradsafe) arbitrary stop lists (unsorted, out of range, INT32 limits), degenerate "
-          "geometry, singular transforms under ASan with a per-case watchdog. Non-trivial = a checked row crosses a stop image or a "
-          "repeat seam."),
+    rule=('(gradient) rapidcheck: 1-8 stops with non-decreasing positions in [0,1] incl. repeated positions and gaps at both '
+          'ends; linear (incl. horizontal/vertical axes), radial (concentric, nested, disjoint, r=0, equal radii) and conical '
+          'gradients (any angle, centre on a pixel centre); four repeats; identity / scale / affine / projective transforms; '
+          'a8r8g8b8 and rgba_float destinations; rows of 1-40 pixels. Special modes (6% each): 1-3 px wide, 300-4000 px tall '
+          'requests over almost horizontal linear gradients; geometry 16400-29000 px away from the request; internally tangent '
+          'circles (a == 0 exactly). 30% of requests use OVER onto a random destination instead of SRC (pixels without admissible'
+          ' parameter must keep the destination exactly). Oracle: t from the geometry in long double at the pixel centre and at '
+          'positions a few 1/65536 away (scaled by the projective conditioning), colour = repeat applied to t, two neighbouring '
+          'stops interpolated in non-premultiplied space, premultiplied; every channel must lie within 1 step of the range of the'
+          ' reference over the admissible t interval (endpoints, interior samples, both sides of every stop image); no admissible'
+          ' t => transparent. Skipped and counted: pixels where admissibility flips or t moves > 0.02 within the position '
+          'uncertainty, REPEAT_NONE between 0/1 and the first/last stop (only one neighbouring stop), degenerate linear axes, '
+          'requests the library drops (C04). (gradsafe) arbitrary stop lists (unsorted, out of range, INT32 limits), degenerate '
+          'geometry, singular transforms under ASan with a per-case watchdog. Non-trivial = a checked row crosses a stop image or'
+          ' a repeat seam.'),
     jobs=[
         dict(harness="gradients", prop="gradient", cases=T(30000, 500000), procs=T(8, 12)),
         dict(harness="gradients_asan", prop="gradsafe", cases=T(15000, 300000), procs=T(3, 4), args=["--watchdog", "20"]),
@@ -437,15 +452,18 @@ CHECKS["C14"] = dict(
 
 CHECKS["C20"] = dict(
     level="exploration",
-    rule=("rapidcheck histories over a pool of 6 image slots (bits with library-owned and caller-owned buffers, indexed, solid, "
-          "linear/radial/conical): create, ref, unref, set_destroy_function (callback checks image/data pairing and that the image "
-          "is intact), set_alpha_map (attach, re-attach the same, replace, detach, chains that must be refused), set_clip_region32, "
-          "set_transform, set_filter with parameter arrays (replaced several times), set_indexed, glyph-cache insert/remove of pool "
-          "images, drawing; then the pool is drained. Model: user reference count + 'held as alpha map by' edges. unref returns "
-          "TRUE exactly when the model's count reaches zero; each destroy callback fires exactly once and exactly then; maps stay "
-          "alive while attached and die with their owner; refused chains do not extend lifetimes; after draining the library's "
-          "live-allocation counter is back to its starting value; built with ASan (use after free, double free) and LSan. "
-          "Non-trivial = a map is unreferenced by the user before its owner, or an owned parameter buffer is replaced twice."),
+    rule=('rapidcheck histories over a pool of 6 image slots (bits with library-owned and caller-owned buffers, indexed, solid, '
+          'linear/radial/conical): create, ref, unref, set_destroy_function (callback checks image/data pairing and that the '
+          'image is intact), set_alpha_map (attach, re-attach the same, replace, detach, chains that must be refused), '
+          'set_clip_region32, set_transform, set_filter with parameter arrays (replaced several times), set_indexed, glyph-cache '
+          'insert/remove of pool images, drawing, refused constructor calls (overflowing size, stride not a multiple of 4, format'
+          ' deeper than its pixel: NULL and nothing left allocated); then the pool is drained. Model: user reference count + '
+          "'held as alpha map by' edges. unref returns TRUE exactly when the model's count reaches zero; each destroy callback "
+          'fires exactly once and exactly then; maps stay alive while attached and die with their owner; refused chains do not '
+          "extend lifetimes; after draining the library's live-allocation counter is back to its starting value; built with ASan "
+          '(use after free, double free) and LSan; a second job runs the same histories against the 16-slot glyph table of hook 3'
+          ' (every slot incl. the last holds a glyph at some point). Non-trivial = a map is unreferenced by the user before its '
+          'owner, or an owned parameter buffer is replaced twice.'),
     jobs=[dict(harness="lifetime_asan", prop="lifetime", cases=T(15000, 300000), procs=T(8, 12)),
           # the same histories against the 16-slot glyph table of hook 3: every slot of the table, the last one included, holds
           # a glyph of a pool image at some point before the cache is destroyed
@@ -480,17 +498,18 @@ CHECKS["C15"] = dict(
 
 CHECKS["C16"] = dict(
     level="exploration",
-    rule=("rapidcheck workloads: a pool of 1-5 source images shared read-only by all threads (bits of any format with transforms/"
-          "filters/repeat/clip/alpha maps, solid fills, gradients; each used once on the main thread before any thread starts) plus "
-          "a shared read-only 16- and 32-bit region; 2-16 barrier-started threads, each with a private destination (any writable "
-          "format, optional clip / alpha map), 0-2 private sources and a program of 3-14 requests: composite32 (all operators, "
-          "shared or private source and mask), fill_rectangles (1-8 rectangles), pixman_fill, 16/32-bit region algebra with the "
-          "shared region as an operand, composite_trapezoids / composite_triangles, glyph drawing through a thread-private glyph "
-          "cache; 25% of workloads run the same program on every thread with different data. Every workload is executed 3 times "
-          "(60 on replay). Oracles: (1) plain -O2 SIMD build: each thread's digest (destination + alpha-map bits + region results + "
-          "return values) equals that of the same program run alone on the main thread; (2) ThreadSanitizer build of library and "
-          "harness: any data-race report is a violation. Non-trivial = at least two threads, and one shared image used by at "
-          "least two of them."),
+    rule=('rapidcheck workloads: a pool of 1-5 source images shared read-only by all threads (bits of any format with '
+          'transforms/filters/repeat/clip/alpha maps, solid fills, gradients; each used once on the main thread before any thread'
+          ' starts) plus a shared read-only 16- and 32-bit region; 2-16 barrier-started threads, each with a private destination '
+          '(any writable format, optional clip / alpha map), 0-2 private sources and a program of 3-14 requests: composite32 (all'
+          ' operators, shared or private source and mask), fill_rectangles (1-8 rectangles), pixman_fill, 16/32-bit region '
+          'algebra with the shared region as an operand, composite_trapezoids / composite_triangles, glyph drawing through a '
+          'thread-private glyph cache; 25% of workloads run the same program on every thread with different data. The threaded '
+          'repetitions run before the single-threaded reference, so that lazily initialised library state is first touched '
+          "concurrently. Every workload is executed 3 times (60 on replay). Oracles: (1) plain -O2 SIMD build: each thread's "
+          'digest (destination + alpha-map bits + region results + return values) equals that of the same program run alone on '
+          'the main thread; (2) ThreadSanitizer build of library and harness: any data-race report is a violation. Non-trivial = '
+          'at least two threads, and one shared image used by at least two of them.'),
     jobs=[dict(harness="threads", prop="threads", cases=T(1500, 20000), procs=T(4, 6), schedule_dependent=True),
           dict(harness="threads_tsan", prop="threads", cases=T(500, 6000), procs=T(8, 10), schedule_dependent=True)],
     floor=T(2000, 60000), nt_floor=T(500, 10000),
